@@ -42,7 +42,7 @@ RULE = ("part 'threads': structured multi-thread programs (2-4 threads; own task
         "task_level against the start messages), and the canonical parsed forest is identical across schedules. non-trivial = "
         "schedule with a preemption inside eliot code / release order with >=2 live contexts / (decorator) execution in which a call of the decorated function began while another thread or task was inside one; distinct by interleaving hash")
 ASSUMPTIONS = ["programs join the work they spawn before the enclosing action ends", "switch points: statement boundaries (threads), awaits (tasks)",
-               "part 'decorator': threads / pool threads that log into one Action object do so one logging call at a time (application lock); see DECORATOR_UNGUARDED_SHARED_LOGGING"]
+               "part 'decorator': threads / pool threads log into one shared Action object without any application lock (DECORATOR_UNGUARDED_SHARED_LOGGING = True since positions are handed out in one step, /repo 145c77c; on the tree before that fix two such threads could be given one task_level)"]
 EXHAUSTIVE_NOTE = "threads: all one-preemption schedules (root thread first and last in priority) of each generated program"
 CASE_TIMEOUT = 900
 
@@ -290,7 +290,7 @@ ENABLE_DECORATOR = True
 # a placement matter (C02) outside C05's quantifier, so the programs here guard their logging calls into the shared action by an
 # application lock: calls of the decorated function still overlap, switch points inside context() entry / exit and inside every
 # other logging call stay. Set to True to run without that lock (fires on the unchanged tree, see above).
-DECORATOR_UNGUARDED_SHARED_LOGGING = False
+DECORATOR_UNGUARDED_SHARED_LOGGING = True
 
 
 class DecoEnv(object):
